@@ -249,6 +249,21 @@ class World:
             self.qmd[-1].update(d)
             if self.track_twin:
                 self.twin.append(self.twin[i])
+        elif name == "QMDheld":
+            # ONE dict object that the caller keeps (and re-uses for several calls / edits later, see MutHeld)
+            if not hasattr(self, "held"):
+                self.held = {"a": 1}
+            d = dict(self.held)
+            self.add(s.QMetaData(self.held), i, ("QMetaData", d))
+            self.qmd[-1].update(d)
+            if self.track_twin:
+                self.twin.append(self.twin[i])
+        elif name == "MutHeld":
+            # the caller edits its own dict after the call(s): no stream may notice
+            if not hasattr(self, "held"):
+                self.held = {"a": 1}
+            self.held["a"] = self.held.get("a", 1) + 10
+            self.held["b"] = "late"
         elif name in ("Value", "ValueT", "ValueOv", "ValueAsync", "ValueMut", "ValueOvFalsy", "ValueOvAw"):
             before = self.observe(s)
             expected_ast = dump_without_empty_metadata(s.query_ast, self.ds_index)
@@ -441,6 +456,10 @@ def history_code(roots, hist):
             code = f"streams.append(streams[{i}].MetaData({{'k': 1}}))"
         elif name == "QMD":
             code = f"streams.append(streams[{i}].QMetaData({dict(op[2])!r}))"
+        elif name == "QMDheld":
+            code = f"HELD = globals().get('HELD') or {{'a': 1}}\nstreams.append(streams[{i}].QMetaData(HELD))"
+        elif name == "MutHeld":
+            code = "HELD = globals().get('HELD') or {'a': 1}\nHELD['a'] = HELD.get('a', 1) + 10; HELD['b'] = 'late'"
         elif name == "Awk":
             code = f"streams.append(streams[{i}].AsAwkwardArray(['c']))"
         elif name == "TTree":
